@@ -53,7 +53,7 @@ PROPS = {
     "C03": dict(kind="run", proj="P_set", mon="mon_true",
                 profiles=["parallel", "parloop", "react"], quick=240, thorough=6000,
                 finding_profiles=["parloop_all"]),
-    "C04": dict(kind="run", proj="P_C04", mon="mon_true",
+    "C04": dict(kind="run", proj="P_C04", mon="mon_C04ctx", property_files=("C04ctx",),
                 profiles=["cond", "default", "react_loops"], quick=240, thorough=6000,
                 finding_profiles=["parloop_all"]),
     "C05": dict(kind="run", proj="P_seq", mon="mon_true",
@@ -73,13 +73,13 @@ PROPS = {
     "C15": dict(kind="run", proj="P_C15", mon="mon_true", property_files=("C15net",),
                 profiles=["params", "params_indexed", "hostile_append", "hostile_clear", "hostile_replace"],
                 quick=240, thorough=6000, finding_profiles=["parloop_all"]),
-    "C17": dict(kind="run", proj="P_C17", mon="mon_C17", py_monitor="petri_net_notices",
+    "C17": dict(kind="run", proj="P_C17", mon="mon_C17", property_files=("C20net",), py_monitor="petri_net_notices",
                 profiles=["observers", "observers_loops"], quick=200, thorough=5000),
-    "C20": dict(kind="run", proj="P_C20", mon="mon_C20",
+    "C20": dict(kind="run", proj="P_C20", mon="mon_C20", property_files=("C20net",),
                 profiles=["listeners"], quick=200, thorough=5000, finding_profiles=["listeners_imm"]),
     # C13: expressions in isolation (kind expr) + guards evaluated repeatedly in running orders
     # (Conditions and loops re-evaluated against current values), compared on oracle queries
-    "C13": dict(kind="expr", quick=600, thorough=20000, proj="P_C04", mon="mon_true",
+    "C13": dict(kind="expr", property_files=("C13prec",), quick=600, thorough=20000, proj="P_C04", mon="mon_true",
                 run_profiles=["cond", "loops"], run_quick=120, run_thorough=3000),
 }
 
